@@ -149,48 +149,48 @@ def «RedisPubsubPeers.InstanceID» : Nat := 137
 def «RedisPubsubPeers.Done» : Nat := 138
 def «RedisPubsubPeers.peers» : Nat := 139
 def «RedisPubsubPeers.hash» : Nat := 140
-def «RedisPubsubPeers.callbacks» : Nat := 141
-def «RedisPubsubPeers.sub» : Nat := 142
-def «RedisPubsubPeers.topic» : Nat := 143
-def «fileConfig.mainConfig» : Nat := 144
-def «fileConfig.mainHash» : Nat := 145
-def «fileConfig.rulesConfig» : Nat := 146
-def «fileConfig.rulesHash» : Nat := 147
-def «fileConfig.opts» : Nat := 148
-def «fileConfig.callbacks» : Nat := 149
-def «fileConfig.mux» : Nat := 150
-def «fileConfig.lastLoadTime» : Nat := 151
-def «ConfigWatcher.Config» : Nat := 152
-def «ConfigWatcher.Logger» : Nat := 153
-def «ConfigWatcher.PubSub» : Nat := 154
-def «ConfigWatcher.Tracer» : Nat := 155
-def «ConfigWatcher.Clock» : Nat := 156
-def «ConfigWatcher.subscr» : Nat := 157
-def «ConfigWatcher.msgTime» : Nat := 158
-def «ConfigWatcher.done» : Nat := 159
-def «ConfigWatcher.mut» : Nat := 160
-def «ConfigWatcher.topic» : Nat := 161
-def «ConfigWatcher.Starter» : Nat := 162
-def «ConfigWatcher.Stopper» : Nat := 163
-def «MultiMetrics.Config» : Nat := 164
-def «MultiMetrics.PromMetrics» : Nat := 165
-def «MultiMetrics.OTelMetrics» : Nat := 166
-def «MultiMetrics.children» : Nat := 167
-def «MultiMetrics.counters» : Nat := 168
-def «MultiMetrics.gauges» : Nat := 169
-def «MultiMetrics.updowns» : Nat := 170
-def «MultiMetrics.stores» : Nat := 171
-def «MultiMetrics.metricTypes» : Nat := 172
-def «SamplerFactory.Config» : Nat := 173
-def «SamplerFactory.Logger» : Nat := 174
-def «SamplerFactory.Metrics» : Nat := 175
-def «SamplerFactory.Peers» : Nat := 176
-def «SamplerFactory.peerCount» : Nat := 177
-def «SamplerFactory.mutex» : Nat := 178
-def «SamplerFactory.sharedDynsamplers» : Nat := 179
-def «SamplerFactory.goalThroughputConfigs» : Nat := 180
-def «environmentCache.addItem()» : Nat := 181
-def «RedisPubsubPeers.cbMut» : Nat := 182
+def «RedisPubsubPeers.cbMut» : Nat := 141
+def «RedisPubsubPeers.callbacks» : Nat := 142
+def «RedisPubsubPeers.sub» : Nat := 143
+def «RedisPubsubPeers.topic» : Nat := 144
+def «fileConfig.mainConfig» : Nat := 145
+def «fileConfig.mainHash» : Nat := 146
+def «fileConfig.rulesConfig» : Nat := 147
+def «fileConfig.rulesHash» : Nat := 148
+def «fileConfig.opts» : Nat := 149
+def «fileConfig.callbacks» : Nat := 150
+def «fileConfig.mux» : Nat := 151
+def «fileConfig.lastLoadTime» : Nat := 152
+def «ConfigWatcher.Config» : Nat := 153
+def «ConfigWatcher.Logger» : Nat := 154
+def «ConfigWatcher.PubSub» : Nat := 155
+def «ConfigWatcher.Tracer» : Nat := 156
+def «ConfigWatcher.Clock» : Nat := 157
+def «ConfigWatcher.subscr» : Nat := 158
+def «ConfigWatcher.msgTime» : Nat := 159
+def «ConfigWatcher.done» : Nat := 160
+def «ConfigWatcher.mut» : Nat := 161
+def «ConfigWatcher.topic» : Nat := 162
+def «ConfigWatcher.Starter» : Nat := 163
+def «ConfigWatcher.Stopper» : Nat := 164
+def «MultiMetrics.Config» : Nat := 165
+def «MultiMetrics.PromMetrics» : Nat := 166
+def «MultiMetrics.OTelMetrics» : Nat := 167
+def «MultiMetrics.children» : Nat := 168
+def «MultiMetrics.counters» : Nat := 169
+def «MultiMetrics.gauges» : Nat := 170
+def «MultiMetrics.updowns» : Nat := 171
+def «MultiMetrics.stores» : Nat := 172
+def «MultiMetrics.metricTypes» : Nat := 173
+def «SamplerFactory.Config» : Nat := 174
+def «SamplerFactory.Logger» : Nat := 175
+def «SamplerFactory.Metrics» : Nat := 176
+def «SamplerFactory.Peers» : Nat := 177
+def «SamplerFactory.peerCount» : Nat := 178
+def «SamplerFactory.mutex» : Nat := 179
+def «SamplerFactory.sharedDynsamplers» : Nat := 180
+def «SamplerFactory.goalThroughputConfigs» : Nat := 181
+def «environmentCache.addItem()» : Nat := 182
 end L
 
 /-! Functions and function literals (`Outer$n`) of the analysed packages. -/
@@ -858,7 +858,7 @@ def «validateRules» : Nat := 659
 def «writeYAMLToFile» : Nat := 660
 end F
 
-def locNames : List String := ["InMemCollector.Config", "InMemCollector.Logger", "InMemCollector.Clock", "InMemCollector.Tracer", "InMemCollector.Health", "InMemCollector.Sharder", "InMemCollector.Transmission", "InMemCollector.PeerTransmission", "InMemCollector.PubSub", "InMemCollector.Metrics", "InMemCollector.SamplerFactory", "InMemCollector.StressRelief", "InMemCollector.Peers", "InMemCollector.TestMode", "InMemCollector.BlockOnAddSpan", "InMemCollector.workers", "InMemCollector.mutex", "InMemCollector.monitorWG", "InMemCollector.workersWG", "InMemCollector.sendTracesWG", "InMemCollector.reload", "InMemCollector.tracesToSend", "InMemCollector.done", "InMemCollector.hostname", "InMemCollector.memMetricSample", "CollectorWorker.ID", "CollectorWorker.parent", "CollectorWorker.incoming", "CollectorWorker.fromPeer", "CollectorWorker.sendEarly", "CollectorWorker.pause", "CollectorWorker.reload", "CollectorWorker.cache", "CollectorWorker.sampleCache", "CollectorWorker.datasetSamplers", "CollectorWorker.lastCacheSize", "CollectorWorker.localSpansWaiting", "CollectorWorker.localSpanReceived", "CollectorWorker.localSpanProcessed", "CollectorWorker.healthCheckInAt", "StressRelief.RefineryMetrics", "StressRelief.Config", "StressRelief.Logger", "StressRelief.Health", "StressRelief.PubSub", "StressRelief.Peer", "StressRelief.Clock", "StressRelief.Done", "StressRelief.mode", "StressRelief.hostID", "StressRelief.activateLevel", "StressRelief.deactivateLevel", "StressRelief.sampleRate", "StressRelief.upperBound", "StressRelief.overallStressLevel", "StressRelief.reason", "StressRelief.formula", "StressRelief.stressed", "StressRelief.stayOnUntil", "StressRelief.minDuration", "StressRelief.topic", "StressRelief.algorithms", "StressRelief.lock", "StressRelief.stressLevels", "StressRelief.disableStressLevelReport", "CuckooTraceChecker.current", "CuckooTraceChecker.current*", "CuckooTraceChecker.future", "CuckooTraceChecker.future*", "CuckooTraceChecker.mut", "CuckooTraceChecker.capacity", "CuckooTraceChecker.met", "CuckooTraceChecker.addch", "CuckooTraceChecker.done", "CuckooTraceChecker.shutdownWG", "cuckooSentCache.met", "cuckooSentCache.kept", "cuckooSentCache.dropped", "cuckooSentCache.recentDroppedIDs", "cuckooSentCache.cfg", "cuckooSentCache.done", "cuckooSentCache.shutdownWG", "cuckooSentCache.keptReasons", "Router.Config", "Router.Logger", "Router.Health", "Router.HTTPTransport", "Router.UpstreamTransmission", "Router.PeerTransmission", "Router.Sharder", "Router.Collector", "Router.Metrics", "Router.Tracer", "Router.versionStr", "Router.proxyClient", "Router.routerType", "Router.iopLogger", "Router.zstdDecoder", "Router.server", "Router.grpcServer", "Router.doneWG", "Router.donech", "Router.environmentCache", "Router.hsrv", "Router.metricsNames", "environmentCache.mutex", "environmentCache.items", "environmentCache.ttl", "environmentCache.getFn", "eventBatch.mutex", "eventBatch.events", "eventBatch.startTime", "DirectTransmission.Config", "DirectTransmission.Logger", "DirectTransmission.Version", "DirectTransmission.Metrics", "DirectTransmission.Transport", "DirectTransmission.Clock", "DirectTransmission.transmitType", "DirectTransmission.enableCompression", "DirectTransmission.maxBatchSize", "DirectTransmission.batchTimeout", "DirectTransmission.batchSendTimeout", "DirectTransmission.additionalHeaders", "DirectTransmission.eventBatches", "DirectTransmission.batchMutex", "DirectTransmission.dispatchPool", "DirectTransmission.stop", "DirectTransmission.stopWG", "DirectTransmission.httpClient", "DirectTransmission.userAgent", "DirectTransmission.metricKeys", "RedisPubsubPeers.Config", "RedisPubsubPeers.Metrics", "RedisPubsubPeers.Logger", "RedisPubsubPeers.PubSub", "RedisPubsubPeers.Clock", "RedisPubsubPeers.InstanceID", "RedisPubsubPeers.Done", "RedisPubsubPeers.peers", "RedisPubsubPeers.hash", "RedisPubsubPeers.callbacks", "RedisPubsubPeers.sub", "RedisPubsubPeers.topic", "fileConfig.mainConfig", "fileConfig.mainHash", "fileConfig.rulesConfig", "fileConfig.rulesHash", "fileConfig.opts", "fileConfig.callbacks", "fileConfig.mux", "fileConfig.lastLoadTime", "ConfigWatcher.Config", "ConfigWatcher.Logger", "ConfigWatcher.PubSub", "ConfigWatcher.Tracer", "ConfigWatcher.Clock", "ConfigWatcher.subscr", "ConfigWatcher.msgTime", "ConfigWatcher.done", "ConfigWatcher.mut", "ConfigWatcher.topic", "ConfigWatcher.Starter", "ConfigWatcher.Stopper", "MultiMetrics.Config", "MultiMetrics.PromMetrics", "MultiMetrics.OTelMetrics", "MultiMetrics.children", "MultiMetrics.counters", "MultiMetrics.gauges", "MultiMetrics.updowns", "MultiMetrics.stores", "MultiMetrics.metricTypes", "SamplerFactory.Config", "SamplerFactory.Logger", "SamplerFactory.Metrics", "SamplerFactory.Peers", "SamplerFactory.peerCount", "SamplerFactory.mutex", "SamplerFactory.sharedDynsamplers", "SamplerFactory.goalThroughputConfigs", "environmentCache.addItem()", "RedisPubsubPeers.cbMut"]
+def locNames : List String := ["InMemCollector.Config", "InMemCollector.Logger", "InMemCollector.Clock", "InMemCollector.Tracer", "InMemCollector.Health", "InMemCollector.Sharder", "InMemCollector.Transmission", "InMemCollector.PeerTransmission", "InMemCollector.PubSub", "InMemCollector.Metrics", "InMemCollector.SamplerFactory", "InMemCollector.StressRelief", "InMemCollector.Peers", "InMemCollector.TestMode", "InMemCollector.BlockOnAddSpan", "InMemCollector.workers", "InMemCollector.mutex", "InMemCollector.monitorWG", "InMemCollector.workersWG", "InMemCollector.sendTracesWG", "InMemCollector.reload", "InMemCollector.tracesToSend", "InMemCollector.done", "InMemCollector.hostname", "InMemCollector.memMetricSample", "CollectorWorker.ID", "CollectorWorker.parent", "CollectorWorker.incoming", "CollectorWorker.fromPeer", "CollectorWorker.sendEarly", "CollectorWorker.pause", "CollectorWorker.reload", "CollectorWorker.cache", "CollectorWorker.sampleCache", "CollectorWorker.datasetSamplers", "CollectorWorker.lastCacheSize", "CollectorWorker.localSpansWaiting", "CollectorWorker.localSpanReceived", "CollectorWorker.localSpanProcessed", "CollectorWorker.healthCheckInAt", "StressRelief.RefineryMetrics", "StressRelief.Config", "StressRelief.Logger", "StressRelief.Health", "StressRelief.PubSub", "StressRelief.Peer", "StressRelief.Clock", "StressRelief.Done", "StressRelief.mode", "StressRelief.hostID", "StressRelief.activateLevel", "StressRelief.deactivateLevel", "StressRelief.sampleRate", "StressRelief.upperBound", "StressRelief.overallStressLevel", "StressRelief.reason", "StressRelief.formula", "StressRelief.stressed", "StressRelief.stayOnUntil", "StressRelief.minDuration", "StressRelief.topic", "StressRelief.algorithms", "StressRelief.lock", "StressRelief.stressLevels", "StressRelief.disableStressLevelReport", "CuckooTraceChecker.current", "CuckooTraceChecker.current*", "CuckooTraceChecker.future", "CuckooTraceChecker.future*", "CuckooTraceChecker.mut", "CuckooTraceChecker.capacity", "CuckooTraceChecker.met", "CuckooTraceChecker.addch", "CuckooTraceChecker.done", "CuckooTraceChecker.shutdownWG", "cuckooSentCache.met", "cuckooSentCache.kept", "cuckooSentCache.dropped", "cuckooSentCache.recentDroppedIDs", "cuckooSentCache.cfg", "cuckooSentCache.done", "cuckooSentCache.shutdownWG", "cuckooSentCache.keptReasons", "Router.Config", "Router.Logger", "Router.Health", "Router.HTTPTransport", "Router.UpstreamTransmission", "Router.PeerTransmission", "Router.Sharder", "Router.Collector", "Router.Metrics", "Router.Tracer", "Router.versionStr", "Router.proxyClient", "Router.routerType", "Router.iopLogger", "Router.zstdDecoder", "Router.server", "Router.grpcServer", "Router.doneWG", "Router.donech", "Router.environmentCache", "Router.hsrv", "Router.metricsNames", "environmentCache.mutex", "environmentCache.items", "environmentCache.ttl", "environmentCache.getFn", "eventBatch.mutex", "eventBatch.events", "eventBatch.startTime", "DirectTransmission.Config", "DirectTransmission.Logger", "DirectTransmission.Version", "DirectTransmission.Metrics", "DirectTransmission.Transport", "DirectTransmission.Clock", "DirectTransmission.transmitType", "DirectTransmission.enableCompression", "DirectTransmission.maxBatchSize", "DirectTransmission.batchTimeout", "DirectTransmission.batchSendTimeout", "DirectTransmission.additionalHeaders", "DirectTransmission.eventBatches", "DirectTransmission.batchMutex", "DirectTransmission.dispatchPool", "DirectTransmission.stop", "DirectTransmission.stopWG", "DirectTransmission.httpClient", "DirectTransmission.userAgent", "DirectTransmission.metricKeys", "RedisPubsubPeers.Config", "RedisPubsubPeers.Metrics", "RedisPubsubPeers.Logger", "RedisPubsubPeers.PubSub", "RedisPubsubPeers.Clock", "RedisPubsubPeers.InstanceID", "RedisPubsubPeers.Done", "RedisPubsubPeers.peers", "RedisPubsubPeers.hash", "RedisPubsubPeers.cbMut", "RedisPubsubPeers.callbacks", "RedisPubsubPeers.sub", "RedisPubsubPeers.topic", "fileConfig.mainConfig", "fileConfig.mainHash", "fileConfig.rulesConfig", "fileConfig.rulesHash", "fileConfig.opts", "fileConfig.callbacks", "fileConfig.mux", "fileConfig.lastLoadTime", "ConfigWatcher.Config", "ConfigWatcher.Logger", "ConfigWatcher.PubSub", "ConfigWatcher.Tracer", "ConfigWatcher.Clock", "ConfigWatcher.subscr", "ConfigWatcher.msgTime", "ConfigWatcher.done", "ConfigWatcher.mut", "ConfigWatcher.topic", "ConfigWatcher.Starter", "ConfigWatcher.Stopper", "MultiMetrics.Config", "MultiMetrics.PromMetrics", "MultiMetrics.OTelMetrics", "MultiMetrics.children", "MultiMetrics.counters", "MultiMetrics.gauges", "MultiMetrics.updowns", "MultiMetrics.stores", "MultiMetrics.metricTypes", "SamplerFactory.Config", "SamplerFactory.Logger", "SamplerFactory.Metrics", "SamplerFactory.Peers", "SamplerFactory.peerCount", "SamplerFactory.mutex", "SamplerFactory.sharedDynsamplers", "SamplerFactory.goalThroughputConfigs", "environmentCache.addItem()"]
 
 def fnNames : List String := ["AccessKeyConfig.GetReplaceKey", "AccessKeyConfig.HasKeyIDs", "AccessKeyConfig.IsAccepted", "CmdEnv.ApplyTags", "CmdEnv.GetDelimiter", "CmdEnv.GetField", "CollectionConfig.GetIncomingQueueSizePerWorker", "CollectionConfig.GetMaxAlloc", "CollectionConfig.GetPeerQueueSizePerWorker", "CollectionConfig.GetWorkerCount", "CollectorWorker.GetCacheSize", "CollectorWorker.IsHealthy", "CollectorWorker.Stop", "CollectorWorker.addSpan", "CollectorWorker.addSpanFromPeer", "CollectorWorker.collect", "CollectorWorker.getLastSpanProcessed", "CollectorWorker.makeDecision", "CollectorWorker.processSpan", "CollectorWorker.processSpan$1", "CollectorWorker.sendExpiredTracesInCache", "CollectorWorker.sendExpiredTracesInCache$1", "CollectorWorker.sendTracesEarly", "CollectorWorker.sendTracesEarly$1", "ConfigHashMetrics", "ConfigWatcher.ReloadCallback", "ConfigWatcher.Start", "ConfigWatcher.Stop", "ConfigWatcher.SubscriptionListener", "ConfigWatcher.monitor", "ConvertBoolToFloat", "CuckooTraceChecker.Add", "CuckooTraceChecker.Check", "CuckooTraceChecker.Maintain", "CuckooTraceChecker.SetNextCapacity", "CuckooTraceChecker.Stop", "CuckooTraceChecker.drain", "DefaultInMemCache.Get", "DefaultInMemCache.GetAll", "DefaultInMemCache.GetCacheCapacity", "DefaultInMemCache.GetCacheEntryCount", "DefaultInMemCache.RemoveTraces", "DefaultInMemCache.Set", "DefaultInMemCache.TakeExpiredTraces", "DefaultTransmission.EnqueueEvent", "DefaultTransmission.EnqueueSpan", "DefaultTransmission.RegisterMetrics", "DefaultTransmission.Start", "DefaultTransmission.Start$1", "DefaultTransmission.Start$2", "DefaultTransmission.Stop", "DefaultTransmission.processResponses", "DefaultTransmission.reloadTransmissionBuilder", "DefaultTrue.Get", "DefaultTrue.MarshalText", "DefaultTrue.UnmarshalText", "Deprecation.GetDeprecationText", "Deprecation.GetLastVersion", "DeterministicSampler.GetKeyFields", "DeterministicSampler.GetSampleRate", "DeterministicSampler.Start", "DeterministicSampler.Start$1", "DeterministicSamplerConfig.GetSamplingFields", "DirectTransmission.EnqueueEvent", "DirectTransmission.EnqueueEvent$1", "DirectTransmission.EnqueueSpan", "DirectTransmission.Start", "DirectTransmission.Stop", "DirectTransmission.Stop$1", "DirectTransmission.dispatchStaleBatches", "DirectTransmission.dispatchStaleBatches$1", "DirectTransmission.handleBatchFailure", "DirectTransmission.handleError", "DirectTransmission.handleEventError", "DirectTransmission.registerMetrics", "DirectTransmission.sendBatch", "Duration.MarshalText", "Duration.UnmarshalText", "DynamicSampler.GetKeyFields", "DynamicSampler.GetSampleRate", "DynamicSampler.Start", "DynamicSampler.Start$1", "DynamicSamplerConfig.GetSamplingFields", "EMADynamicSampler.GetKeyFields", "EMADynamicSampler.GetSampleRate", "EMADynamicSampler.Start", "EMADynamicSampler.Start$1", "EMADynamicSamplerConfig.GetSamplingFields", "EMAThroughputSampler.GetKeyFields", "EMAThroughputSampler.GetSampleRate", "EMAThroughputSampler.Start", "EMAThroughputSampler.Start$1", "EMAThroughputSamplerConfig.GetSamplingFields", "FileConfigError.Error", "FileConfigError.HasErrors", "FilePeers.GetInstanceID", "FilePeers.GetPeers", "FilePeers.Ready", "FilePeers.RegisterUpdatedPeersCallback", "FilePeers.Start", "FilePeers.Start$1", "GetCollectorImplementation", "GetKeyFields", "GetMetricsImplementation", "Group.GetDeprecationVersion", "Group.IsDeprecated", "HoneycombLoggerConfig.GetSamplerEnabled", "InMemCollector.AddSpan", "InMemCollector.AddSpanFromPeer", "InMemCollector.GetStressedSampleRate", "InMemCollector.IsMyTrace", "InMemCollector.ProcessSpanImmediately", "InMemCollector.Start", "InMemCollector.Start$1", "InMemCollector.Stop", "InMemCollector.Stressed", "InMemCollector.addAdditionalAttributes", "InMemCollector.checkAlloc", "InMemCollector.dealWithSentTrace", "InMemCollector.getWorkerIDForTrace", "InMemCollector.isReady", "InMemCollector.monitor", "InMemCollector.reloadConfigs", "InMemCollector.send", "InMemCollector.sendReloadSignal", "InMemCollector.sendTraces", "IsLegacyAPIKey", "KeptReasonsCache.Get", "KeptReasonsCache.Set", "Level.MarshalText", "Level.String", "Level.UnmarshalText", "LoadConfigMetadata", "LoadRulesMetadata", "LogsServer.Export", "MemorySize.MarshalText", "MemorySize.UnmarshalFlag", "MemorySize.UnmarshalText", "Metadata.ClosestNamesTo", "Metadata.ClosestNamesTo$1", "Metadata.GetField", "Metadata.GetGroup", "Metadata.LoadFrom", "Metadata.Validate", "Metadata.ValidateRules", "MetricType.String", "MockCollector.AddSpan", "MockCollector.AddSpanFromPeer", "MockCollector.Flush", "MockCollector.GetStressedSampleRate", "MockCollector.ProcessSpanImmediately", "MockCollector.Stressed", "MockConfig.DetermineSamplerKey", "MockConfig.GetAccessKeyConfig", "MockConfig.GetAddCountsToRoot", "MockConfig.GetAddHostMetadataToTrace", "MockConfig.GetAddRuleReasonToTrace", "MockConfig.GetAddSpanCountToRoot", "MockConfig.GetAdditionalAttributes", "MockConfig.GetAdditionalErrorFields", "MockConfig.GetAdditionalHeaders", "MockConfig.GetAllSamplerRules", "MockConfig.GetCollectionConfig", "MockConfig.GetCollectorType", "MockConfig.GetCompressPeerCommunication", "MockConfig.GetConfigMetadata", "MockConfig.GetDatasetPrefix", "MockConfig.GetDebugServiceAddr", "MockConfig.GetEnvironmentCacheTTL", "MockConfig.GetGRPCConfig", "MockConfig.GetGRPCEnabled", "MockConfig.GetGRPCListenAddr", "MockConfig.GetGeneralConfig", "MockConfig.GetHTTPIdleTimeout", "MockConfig.GetHashes", "MockConfig.GetHealthCheckTimeout", "MockConfig.GetHoneycombAPI", "MockConfig.GetHoneycombLoggerConfig", "MockConfig.GetIdentifierInterfaceName", "MockConfig.GetIsDryRun", "MockConfig.GetListenAddr", "MockConfig.GetLoggerLevel", "MockConfig.GetLoggerType", "MockConfig.GetOTelMetricsConfig", "MockConfig.GetOTelTracingConfig", "MockConfig.GetOpAMPConfig", "MockConfig.GetParentIdFieldNames", "MockConfig.GetPeerListenAddr", "MockConfig.GetPeerManagementType", "MockConfig.GetPeerTimeout", "MockConfig.GetPeers", "MockConfig.GetPrometheusMetricsConfig", "MockConfig.GetQueryAuthToken", "MockConfig.GetRedisIdentifier", "MockConfig.GetRedisPeerManagement", "MockConfig.GetSampleCacheConfig", "MockConfig.GetSamplerConfigForDestName", "MockConfig.GetSamplingKeyFieldsForDestName", "MockConfig.GetStdoutLoggerConfig", "MockConfig.GetStressReliefConfig", "MockConfig.GetTraceIdFieldNames", "MockConfig.GetTracesConfig", "MockConfig.GetUseIPV6Identifier", "MockConfig.RegisterReloadCallback", "MockConfig.Reload", "MockConfig.SetMaxAlloc", "MockGRPCHealthWatchServer.GetSentMessages", "MockGRPCHealthWatchServer.Send", "MockMetrics.Count", "MockMetrics.Down", "MockMetrics.Gauge", "MockMetrics.Get", "MockMetrics.GetHistogramCount", "MockMetrics.Histogram", "MockMetrics.Increment", "MockMetrics.Register", "MockMetrics.Start", "MockMetrics.Stop", "MockMetrics.Store", "MockMetrics.Up", "MockPeers.GetInstanceID", "MockPeers.GetPeers", "MockPeers.Ready", "MockPeers.RegisterUpdatedPeersCallback", "MockPeers.Start", "MockPeers.UpdatePeers", "MockStressReliever.GetSampleRate", "MockStressReliever.Recalc", "MockStressReliever.ShouldSampleDeterministically", "MockStressReliever.Start", "MockStressReliever.Stressed", "MockStressReliever.UpdateFromConfig", "MockTransmission.EnqueueEvent", "MockTransmission.EnqueueSpan", "MockTransmission.GetBlock", "MockTransmission.RegisterMetrics", "MockTransmission.Start", "MockTransmission.Stop", "MultiMetrics.AddChild", "MultiMetrics.Children", "MultiMetrics.Count", "MultiMetrics.Down", "MultiMetrics.Gauge", "MultiMetrics.Get", "MultiMetrics.Histogram", "MultiMetrics.Increment", "MultiMetrics.Register", "MultiMetrics.Start", "MultiMetrics.Store", "MultiMetrics.Up", "NewCmdEnvOptions", "NewCollectorWorker", "NewConfig", "NewConfigData", "NewCuckooSentCache", "NewCuckooTraceChecker", "NewCuckooTraceChecker$1", "NewDefaultTransmission", "NewDirectTransmission", "NewInMemCache", "NewInMemCache$1", "NewInMemCache$2", "NewKeptReasonsCache", "NewKeptTraceCacheEntry", "NewLogsServer", "NewMockCollector", "NewMockPeers", "NewMultiMetrics", "NewTraceServer", "NullMetrics.Count", "NullMetrics.Down", "NullMetrics.Gauge", "NullMetrics.Get", "NullMetrics.Histogram", "NullMetrics.Increment", "NullMetrics.Register", "NullMetrics.Start", "NullMetrics.Stop", "NullMetrics.Store", "NullMetrics.Up", "OTelMetrics.Count", "OTelMetrics.Down", "OTelMetrics.Gauge", "OTelMetrics.Histogram", "OTelMetrics.Increment", "OTelMetrics.Register", "OTelMetrics.Start", "OTelMetrics.Start$1", "OTelMetrics.Start$2", "OTelMetrics.Start$3", "OTelMetrics.Start$4", "OTelMetrics.Stop", "OTelMetrics.Up", "OTelMetrics.getOrInitCounter", "OTelMetrics.getOrInitGauge", "OTelMetrics.getOrInitHistogram", "OTelMetrics.getOrInitUpDown", "ParseLevel", "PrefixMetricName", "PromMetrics.Count", "PromMetrics.Down", "PromMetrics.Gauge", "PromMetrics.Histogram", "PromMetrics.Increment", "PromMetrics.Register", "PromMetrics.Start", "PromMetrics.Start$1", "PromMetrics.Up", "RedisPubsubPeers.GetInstanceID", "RedisPubsubPeers.GetPeers", "RedisPubsubPeers.Ready", "RedisPubsubPeers.Ready$1", "RedisPubsubPeers.RegisterUpdatedPeersCallback", "RedisPubsubPeers.Start", "RedisPubsubPeers.checkHash", "RedisPubsubPeers.listen", "RedisPubsubPeers.stop", "Router.AddOTLPMuxxer", "Router.Check", "Router.LnS", "Router.LnS$1", "Router.SetEnvironmentCache", "Router.SetEnvironmentCache$1", "Router.SetType", "Router.SetVersion", "Router.Stop", "Router.Watch", "Router.alive", "Router.apiKeyProcessor", "Router.apiKeyProcessor$1", "Router.batch", "Router.debugTrace", "Router.event", "Router.getAllSamplerRules", "Router.getConfigMetadata", "Router.getEnvironmentName", "Router.getKeyID", "Router.getSamplerRules", "Router.handleOTLPFailureResponse", "Router.handlerReturnWithError", "Router.lookupEnvironment", "Router.marshalToFormat", "Router.panic", "Router.panicCatcher", "Router.panicCatcher$1", "Router.panicCatcher$2", "Router.postOTLPLogs", "Router.postOTLPTrace", "Router.processEvent", "Router.processOTLPRequest", "Router.processOTLPRequestBatchMsgp", "Router.processOTLPRequestWithMsgp", "Router.proxy", "Router.queryTokenChecker", "Router.queryTokenChecker$1", "Router.readAndCloseMaybeCompressedBody", "Router.readBodyToBuffer", "Router.readGzipBody", "Router.readUncompressedBody", "Router.readZstdBody", "Router.ready", "Router.registerMetricNames", "Router.requestLogger", "Router.requestLogger$1", "Router.requestToEvent", "Router.setResponseHeaders", "Router.setResponseHeaders$1", "Router.startGRPCHealthMonitor", "Router.startGRPCHealthMonitor$1", "Router.startGRPCHealthMonitor$2", "Router.version", "RulesBasedDownstreamSampler.GetSamplingFields", "RulesBasedDownstreamSampler.NameMeaningfulRate", "RulesBasedSampler.GetKeyFields", "RulesBasedSampler.GetSampleRate", "RulesBasedSampler.Start", "RulesBasedSampler.Start$1", "RulesBasedSamplerCondition.GetComputedField", "RulesBasedSamplerCondition.Init", "RulesBasedSamplerCondition.Init$1", "RulesBasedSamplerCondition.String", "RulesBasedSamplerCondition.setMatchesFunction", "RulesBasedSamplerCondition.setMatchesFunction$1", "RulesBasedSamplerCondition.setMatchesFunction$2", "RulesBasedSamplerConfig.GetSamplingFields", "RulesBasedSamplerConfig.String", "RulesBasedSamplerRule.String", "SampleCacheConfig.GetDroppedSizePerWorker", "SampleCacheConfig.GetKeptSizePerWorker", "SamplerFactory.ClearDynsamplers", "SamplerFactory.GetDownstreamSampler", "SamplerFactory.GetSamplerImplementationForKey", "SamplerFactory.Start", "SamplerFactory.Stop", "SamplerFactory.createSampler", "SamplerFactory.updatePeerCounts", "SerializeToYAML", "StressRelief.GetSampleRate", "StressRelief.Recalc", "StressRelief.Start", "StressRelief.Start$1", "StressRelief.Start$2", "StressRelief.Stressed", "StressRelief.UpdateFromConfig", "StressRelief.clusterStressLevel", "StressRelief.linear", "StressRelief.onStressLevelUpdate", "StressRelief.ratio", "StressRelief.sigmoid", "StressRelief.sqrt", "StressRelief.square", "TotalThroughputSampler.GetKeyFields", "TotalThroughputSampler.GetSampleRate", "TotalThroughputSampler.Start", "TotalThroughputSampler.Start$1", "TotalThroughputSamplerConfig.GetSamplingFields", "TraceServer.ExportTraceData", "TracesConfig.GetBatchTimeout", "TracesConfig.GetMaxBatchSize", "TracesConfig.GetMaxExpiredTraces", "TracesConfig.GetSendDelay", "TracesConfig.GetSendTickerValue", "TracesConfig.GetTraceTimeout", "TryConvertToBool", "V2SamplerChoice.GetSamplingFields", "V2SamplerChoice.NameMeaningfulSamplers", "V2SamplerChoice.Sampler", "Validation.GetArgAsStringSlice", "ValidationResult.IsError", "ValidationResult.isEmpty", "ValidationResults.HasErrors", "WindowedThroughputSampler.GetKeyFields", "WindowedThroughputSampler.GetSampleRate", "WindowedThroughputSampler.Start", "WindowedThroughputSampler.Start$1", "WindowedThroughputSamplerConfig.GetSamplingFields", "WithConfigData", "WithConfigData$1", "WithRulesData", "WithRulesData$1", "addIncomingUserAgent", "applyCmdEnvTags", "applyConfigInto", "asFloat", "batchedEvent.MarshalMsg", "batchedEvent.UnmarshalMsg", "batchedEvent.getEventTime", "batchedEvent.getSampleRate", "batchedEvents.MarshalJSON", "batchedEvents.UnmarshalJSON", "batchedEvents.UnmarshalMsg", "batchedEvents.unmarshalBatchedEventFromFastJSON", "batchedEvents.unmarshalBatchedEventFromFastJSON$1", "batchedEvents.unmarshalBatchedEventFromFastJSON$2", "buildRequestURL", "checkForDeprecation", "clamp", "compare", "compareVersions", "conditionMatchesValue", "convertToString", "createDynForDynamicSampler", "createDynForEMADynamicSampler", "createDynForEMAThroughputSampler", "createDynForTotalThroughputSampler", "createDynForWindowedThroughputSampler", "cuckooDroppedRecord.Count", "cuckooDroppedRecord.DescendantCount", "cuckooDroppedRecord.Kept", "cuckooDroppedRecord.Rate", "cuckooDroppedRecord.Reason", "cuckooDroppedRecord.SpanCount", "cuckooDroppedRecord.SpanEventCount", "cuckooDroppedRecord.SpanLinkCount", "cuckooSentCache.CheckSpan", "cuckooSentCache.CheckTrace", "cuckooSentCache.Record", "cuckooSentCache.Resize", "cuckooSentCache.Stop", "cuckooSentCache.monitor", "customTraceExportHandler", "customTraceExportHandler$1", "distinctValue.AddAsString", "distinctValue.Reset", "distinctValue.Values", "dynsamplerMetricsRecorder.RecordMetrics", "dynsamplerMetricsRecorder.RegisterMetrics", "envGetterFunc", "environmentCache.addItem", "environmentCache.get", "expandEnvVarsInConfig", "expandEnvVarsInString", "expandEnvVarsInString$1", "expandEnvVarsInValues", "extractValueFromSpan", "fileConfig.DetermineSamplerKey", "fileConfig.GetAccessKeyConfig", "fileConfig.GetAddCountsToRoot", "fileConfig.GetAddHostMetadataToTrace", "fileConfig.GetAddRuleReasonToTrace", "fileConfig.GetAddSpanCountToRoot", "fileConfig.GetAdditionalAttributes", "fileConfig.GetAdditionalErrorFields", "fileConfig.GetAdditionalHeaders", "fileConfig.GetAllSamplerRules", "fileConfig.GetCollectionConfig", "fileConfig.GetCompressPeerCommunication", "fileConfig.GetConfigMetadata", "fileConfig.GetDatasetPrefix", "fileConfig.GetDebugServiceAddr", "fileConfig.GetEnvironmentCacheTTL", "fileConfig.GetGRPCConfig", "fileConfig.GetGRPCEnabled", "fileConfig.GetGRPCListenAddr", "fileConfig.GetGeneralConfig", "fileConfig.GetHTTPIdleTimeout", "fileConfig.GetHashes", "fileConfig.GetHealthCheckTimeout", "fileConfig.GetHoneycombAPI", "fileConfig.GetHoneycombLoggerConfig", "fileConfig.GetIdentifierInterfaceName", "fileConfig.GetIsDryRun", "fileConfig.GetListenAddr", "fileConfig.GetLoggerLevel", "fileConfig.GetLoggerType", "fileConfig.GetOTelMetricsConfig", "fileConfig.GetOTelTracingConfig", "fileConfig.GetOpAMPConfig", "fileConfig.GetParentIdFieldNames", "fileConfig.GetPeerListenAddr", "fileConfig.GetPeerManagementType", "fileConfig.GetPeerTimeout", "fileConfig.GetPeers", "fileConfig.GetPrometheusMetricsConfig", "fileConfig.GetQueryAuthToken", "fileConfig.GetRedisAuthCode", "fileConfig.GetRedisClusterHosts", "fileConfig.GetRedisDatabase", "fileConfig.GetRedisHost", "fileConfig.GetRedisIdentifier", "fileConfig.GetRedisPassword", "fileConfig.GetRedisPeerManagement", "fileConfig.GetRedisPrefix", "fileConfig.GetRedisUsername", "fileConfig.GetSampleCacheConfig", "fileConfig.GetSamplerConfigForDestName", "fileConfig.GetSamplingKeyFieldsForDestName", "fileConfig.GetStdoutLoggerConfig", "fileConfig.GetStressReliefConfig", "fileConfig.GetTraceIdFieldNames", "fileConfig.GetTracesConfig", "fileConfig.GetUseIPV6Identifier", "fileConfig.GetUseTLS", "fileConfig.GetUseTLSInsecure", "fileConfig.RegisterReloadCallback", "fileConfig.Reload", "flatten", "formatFromFilename", "formatFromResponse", "getAPIKeyAndDatasetFromMetadata", "getBytesFor", "getConfigDataForLocations", "getDatasetFromRequest", "getDefaultTrueValue", "getEventTime", "getFirstValueFromMetadata", "getIdentifierFromInterface", "getMetricType", "getPeerManagementConfig", "getRefineryTelemetryConfig", "getSharedDynsamplerAndRecorder", "getUserAgentFromRequest", "hashList", "init", "iopLogger.Debug", "iopLogger.Error", "iopLogger.Info", "isString", "isVersionDeprecated", "keptTraceCacheEntry.Count", "keptTraceCacheEntry.DescendantCount", "keptTraceCacheEntry.Kept", "keptTraceCacheEntry.Rate", "keptTraceCacheEntry.SpanCount", "keptTraceCacheEntry.SpanEventCount", "keptTraceCacheEntry.SpanLinkCount", "load", "loadConfigsInto", "loadConfigsIntoMap", "loadNamedMetadata", "makeDecoders", "makeDynsamplerKey", "maskString", "mergeTraceAndSpanSampleRates", "mustFloat", "newBatchedEvents", "newConfigAndRules", "newEnvironmentCache", "newFileConfig", "newPeerCommand", "newSamplerMetricNames", "newStressReliefMessage", "newTraceKey", "parseFractionalEpoch", "peerCommand.marshal", "peerCommand.unmarshal", "populateConfigContents", "publicAddr", "randStringBytes", "recycleHTTPBodyBuffer", "registerCustomTraceService", "ruleMatchesSpanInTrace", "ruleMatchesTrace", "selectIPFromAddrs", "setCompareOperators", "setCompareOperators$1", "setCompareOperators$10", "setCompareOperators$11", "setCompareOperators$12", "setCompareOperators$13", "setCompareOperators$14", "setCompareOperators$15", "setCompareOperators$16", "setCompareOperators$17", "setCompareOperators$18", "setCompareOperators$19", "setCompareOperators$2", "setCompareOperators$20", "setCompareOperators$3", "setCompareOperators$4", "setCompareOperators$5", "setCompareOperators$6", "setCompareOperators$7", "setCompareOperators$8", "setCompareOperators$9", "setInBasedOperators", "setInBasedOperators$1", "setInBasedOperators$2", "setInBasedOperators$3", "setInBasedOperators$4", "setMatchStringBasedOperators", "setMatchStringBasedOperators$1", "setMatchStringBasedOperators$2", "setMatchStringBasedOperators$3", "setRegexStringMatchOperator", "setRegexStringMatchOperator$1", "statusRecorder.WriteHeader", "stressReliefMessage.String", "traceKey.build", "translatedTraceServiceRequest.ProtoMessage", "translatedTraceServiceRequest.Reset", "translatedTraceServiceRequest.String", "translatedTraceServiceRequest.Unmarshal", "tryConvertToFloat", "tryConvertToInt", "unmarshal", "unmarshalStressReliefMessage", "validateConfigs", "validateDatatype", "validateRules", "writeYAMLToFile"]
 
@@ -1004,6 +1004,7 @@ def declaredFields : List Nat := [
   L.«RedisPubsubPeers.Done»,
   L.«RedisPubsubPeers.peers»,
   L.«RedisPubsubPeers.hash»,
+  L.«RedisPubsubPeers.cbMut»,
   L.«RedisPubsubPeers.callbacks»,
   L.«RedisPubsubPeers.sub»,
   L.«RedisPubsubPeers.topic»,
@@ -1329,11 +1330,11 @@ def accessFacts : List Fact := [
   ⟨L.«CuckooTraceChecker.shutdownWG», F.«NewCuckooTraceChecker$1», .atomic, [], false⟩,
   ⟨L.«CuckooTraceChecker.shutdownWG», F.«NewCuckooTraceChecker», .atomic, [], true⟩,
   ⟨L.«cuckooSentCache.met», F.«cuckooSentCache.monitor», .read, [], false⟩,
-  ⟨L.«cuckooSentCache.kept», F.«cuckooSentCache.CheckSpan», .read, [], false⟩,
-  ⟨L.«cuckooSentCache.kept», F.«cuckooSentCache.CheckTrace», .read, [], false⟩,
-  ⟨L.«cuckooSentCache.kept», F.«cuckooSentCache.Record», .read, [], false⟩,
-  ⟨L.«cuckooSentCache.kept», F.«cuckooSentCache.Resize», .read, [], false⟩,
-  ⟨L.«cuckooSentCache.kept», F.«cuckooSentCache.Resize», .write, [], false⟩,
+  ⟨L.«cuckooSentCache.kept», F.«NewCuckooSentCache», .atomic, [], true⟩,
+  ⟨L.«cuckooSentCache.kept», F.«cuckooSentCache.CheckSpan», .atomic, [], false⟩,
+  ⟨L.«cuckooSentCache.kept», F.«cuckooSentCache.CheckTrace», .atomic, [], false⟩,
+  ⟨L.«cuckooSentCache.kept», F.«cuckooSentCache.Record», .atomic, [], false⟩,
+  ⟨L.«cuckooSentCache.kept», F.«cuckooSentCache.Resize», .atomic, [], false⟩,
   ⟨L.«cuckooSentCache.dropped», F.«cuckooSentCache.CheckSpan», .read, [], false⟩,
   ⟨L.«cuckooSentCache.dropped», F.«cuckooSentCache.CheckTrace», .read, [], false⟩,
   ⟨L.«cuckooSentCache.dropped», F.«cuckooSentCache.Record», .read, [], false⟩,
@@ -1567,13 +1568,16 @@ def accessFacts : List Fact := [
   ⟨L.«RedisPubsubPeers.peers», F.«RedisPubsubPeers.Start», .write, [], false⟩,
   ⟨L.«RedisPubsubPeers.peers», F.«RedisPubsubPeers.checkHash», .read, [], false⟩,
   ⟨L.«RedisPubsubPeers.peers», F.«RedisPubsubPeers.listen», .read, [], false⟩,
-  ⟨L.«RedisPubsubPeers.hash», F.«RedisPubsubPeers.Ready$1», .read, [], false⟩,
-  ⟨L.«RedisPubsubPeers.hash», F.«RedisPubsubPeers.checkHash», .read, [], false⟩,
-  ⟨L.«RedisPubsubPeers.hash», F.«RedisPubsubPeers.checkHash», .write, [], false⟩,
-  ⟨L.«RedisPubsubPeers.callbacks», F.«RedisPubsubPeers.RegisterUpdatedPeersCallback», .read, [], false⟩,
-  ⟨L.«RedisPubsubPeers.callbacks», F.«RedisPubsubPeers.RegisterUpdatedPeersCallback», .write, [], false⟩,
+  ⟨L.«RedisPubsubPeers.hash», F.«RedisPubsubPeers.Ready$1», .atomic, [], false⟩,
+  ⟨L.«RedisPubsubPeers.hash», F.«RedisPubsubPeers.checkHash», .atomic, [], false⟩,
+  ⟨L.«RedisPubsubPeers.cbMut», F.«RedisPubsubPeers.RegisterUpdatedPeersCallback», .atomic, [(L.«RedisPubsubPeers.cbMut», .ex)], false⟩,
+  ⟨L.«RedisPubsubPeers.cbMut», F.«RedisPubsubPeers.RegisterUpdatedPeersCallback», .atomic, [], false⟩,
+  ⟨L.«RedisPubsubPeers.cbMut», F.«RedisPubsubPeers.checkHash», .atomic, [(L.«RedisPubsubPeers.cbMut», .ex)], false⟩,
+  ⟨L.«RedisPubsubPeers.cbMut», F.«RedisPubsubPeers.checkHash», .atomic, [], false⟩,
+  ⟨L.«RedisPubsubPeers.callbacks», F.«RedisPubsubPeers.RegisterUpdatedPeersCallback», .read, [(L.«RedisPubsubPeers.cbMut», .ex)], false⟩,
+  ⟨L.«RedisPubsubPeers.callbacks», F.«RedisPubsubPeers.RegisterUpdatedPeersCallback», .write, [(L.«RedisPubsubPeers.cbMut», .ex)], false⟩,
   ⟨L.«RedisPubsubPeers.callbacks», F.«RedisPubsubPeers.Start», .write, [], false⟩,
-  ⟨L.«RedisPubsubPeers.callbacks», F.«RedisPubsubPeers.checkHash», .read, [], false⟩,
+  ⟨L.«RedisPubsubPeers.callbacks», F.«RedisPubsubPeers.checkHash», .read, [(L.«RedisPubsubPeers.cbMut», .ex)], false⟩,
   ⟨L.«RedisPubsubPeers.sub», F.«RedisPubsubPeers.Start», .write, [], false⟩,
   ⟨L.«RedisPubsubPeers.topic», F.«RedisPubsubPeers.Ready$1», .read, [], false⟩,
   ⟨L.«RedisPubsubPeers.topic», F.«RedisPubsubPeers.Start», .read, [], false⟩,
@@ -1635,9 +1639,9 @@ def accessFacts : List Fact := [
   ⟨L.«fileConfig.mainConfig», F.«fileConfig.GetUseTLS», .read, [(L.«fileConfig.mux», .sh)], false⟩,
   ⟨L.«fileConfig.mainConfig», F.«fileConfig.Reload», .read, [], true⟩,
   ⟨L.«fileConfig.mainConfig», F.«fileConfig.Reload», .write, [(L.«fileConfig.mux», .ex)], false⟩,
-  ⟨L.«fileConfig.mainHash», F.«fileConfig.GetConfigMetadata», .read, [], false⟩,
+  ⟨L.«fileConfig.mainHash», F.«fileConfig.GetConfigMetadata», .read, [(L.«fileConfig.mux», .sh)], false⟩,
   ⟨L.«fileConfig.mainHash», F.«fileConfig.GetHashes», .read, [(L.«fileConfig.mux», .sh)], false⟩,
-  ⟨L.«fileConfig.mainHash», F.«fileConfig.Reload», .read, [], false⟩,
+  ⟨L.«fileConfig.mainHash», F.«fileConfig.Reload», .read, [(L.«fileConfig.mux», .ex)], false⟩,
   ⟨L.«fileConfig.mainHash», F.«fileConfig.Reload», .read, [], true⟩,
   ⟨L.«fileConfig.mainHash», F.«fileConfig.Reload», .write, [(L.«fileConfig.mux», .ex)], false⟩,
   ⟨L.«fileConfig.rulesConfig», F.«NewConfig», .read, [], true⟩,
@@ -1646,17 +1650,17 @@ def accessFacts : List Fact := [
   ⟨L.«fileConfig.rulesConfig», F.«fileConfig.GetSamplingKeyFieldsForDestName», .read, [(L.«fileConfig.mux», .sh)], false⟩,
   ⟨L.«fileConfig.rulesConfig», F.«fileConfig.Reload», .read, [], true⟩,
   ⟨L.«fileConfig.rulesConfig», F.«fileConfig.Reload», .write, [(L.«fileConfig.mux», .ex)], false⟩,
-  ⟨L.«fileConfig.rulesHash», F.«fileConfig.GetConfigMetadata», .read, [], false⟩,
+  ⟨L.«fileConfig.rulesHash», F.«fileConfig.GetConfigMetadata», .read, [(L.«fileConfig.mux», .sh)], false⟩,
   ⟨L.«fileConfig.rulesHash», F.«fileConfig.GetHashes», .read, [(L.«fileConfig.mux», .sh)], false⟩,
-  ⟨L.«fileConfig.rulesHash», F.«fileConfig.Reload», .read, [], false⟩,
+  ⟨L.«fileConfig.rulesHash», F.«fileConfig.Reload», .read, [(L.«fileConfig.mux», .ex)], false⟩,
   ⟨L.«fileConfig.rulesHash», F.«fileConfig.Reload», .read, [], true⟩,
   ⟨L.«fileConfig.rulesHash», F.«fileConfig.Reload», .write, [(L.«fileConfig.mux», .ex)], false⟩,
-  ⟨L.«fileConfig.opts», F.«fileConfig.GetConfigMetadata», .read, [], false⟩,
+  ⟨L.«fileConfig.opts», F.«fileConfig.GetConfigMetadata», .read, [(L.«fileConfig.mux», .sh)], false⟩,
   ⟨L.«fileConfig.opts», F.«fileConfig.Reload», .read, [], false⟩,
   ⟨L.«fileConfig.callbacks», F.«NewConfig», .write, [], true⟩,
   ⟨L.«fileConfig.callbacks», F.«fileConfig.RegisterReloadCallback», .read, [(L.«fileConfig.mux», .ex)], false⟩,
   ⟨L.«fileConfig.callbacks», F.«fileConfig.RegisterReloadCallback», .write, [(L.«fileConfig.mux», .ex)], false⟩,
-  ⟨L.«fileConfig.callbacks», F.«fileConfig.Reload», .read, [], false⟩,
+  ⟨L.«fileConfig.callbacks», F.«fileConfig.Reload», .read, [(L.«fileConfig.mux», .ex)], false⟩,
   ⟨L.«fileConfig.mux», F.«fileConfig.GetAccessKeyConfig», .atomic, [(L.«fileConfig.mux», .sh)], false⟩,
   ⟨L.«fileConfig.mux», F.«fileConfig.GetAccessKeyConfig», .atomic, [], false⟩,
   ⟨L.«fileConfig.mux», F.«fileConfig.GetAddCountsToRoot», .atomic, [(L.«fileConfig.mux», .sh)], false⟩,
@@ -1679,6 +1683,8 @@ def accessFacts : List Fact := [
   ⟨L.«fileConfig.mux», F.«fileConfig.GetCollectionConfig», .atomic, [], false⟩,
   ⟨L.«fileConfig.mux», F.«fileConfig.GetCompressPeerCommunication», .atomic, [(L.«fileConfig.mux», .sh)], false⟩,
   ⟨L.«fileConfig.mux», F.«fileConfig.GetCompressPeerCommunication», .atomic, [], false⟩,
+  ⟨L.«fileConfig.mux», F.«fileConfig.GetConfigMetadata», .atomic, [(L.«fileConfig.mux», .sh)], false⟩,
+  ⟨L.«fileConfig.mux», F.«fileConfig.GetConfigMetadata», .atomic, [], false⟩,
   ⟨L.«fileConfig.mux», F.«fileConfig.GetDatasetPrefix», .atomic, [(L.«fileConfig.mux», .sh)], false⟩,
   ⟨L.«fileConfig.mux», F.«fileConfig.GetDatasetPrefix», .atomic, [], false⟩,
   ⟨L.«fileConfig.mux», F.«fileConfig.GetDebugServiceAddr», .atomic, [(L.«fileConfig.mux», .sh)], false⟩,
@@ -1775,7 +1781,7 @@ def accessFacts : List Fact := [
   ⟨L.«fileConfig.mux», F.«fileConfig.RegisterReloadCallback», .atomic, [], false⟩,
   ⟨L.«fileConfig.mux», F.«fileConfig.Reload», .atomic, [(L.«fileConfig.mux», .ex)], false⟩,
   ⟨L.«fileConfig.mux», F.«fileConfig.Reload», .atomic, [], false⟩,
-  ⟨L.«fileConfig.lastLoadTime», F.«fileConfig.GetConfigMetadata», .read, [], false⟩,
+  ⟨L.«fileConfig.lastLoadTime», F.«fileConfig.GetConfigMetadata», .read, [(L.«fileConfig.mux», .sh)], false⟩,
   ⟨L.«ConfigWatcher.Config», F.«ConfigWatcher.ReloadCallback», .read, [], false⟩,
   ⟨L.«ConfigWatcher.Config», F.«ConfigWatcher.Start», .read, [], false⟩,
   ⟨L.«ConfigWatcher.Config», F.«ConfigWatcher.SubscriptionListener», .read, [], false⟩,
@@ -1792,9 +1798,9 @@ def accessFacts : List Fact := [
   ⟨L.«ConfigWatcher.subscr», F.«ConfigWatcher.Stop», .read, [], false⟩,
   ⟨L.«ConfigWatcher.msgTime», F.«ConfigWatcher.ReloadCallback», .read, [(L.«ConfigWatcher.mut», .sh)], false⟩,
   ⟨L.«ConfigWatcher.msgTime», F.«ConfigWatcher.SubscriptionListener», .write, [(L.«ConfigWatcher.mut», .ex)], false⟩,
+  ⟨L.«ConfigWatcher.done», F.«ConfigWatcher.Start», .write, [], false⟩,
   ⟨L.«ConfigWatcher.done», F.«ConfigWatcher.Stop», .read, [], false⟩,
   ⟨L.«ConfigWatcher.done», F.«ConfigWatcher.monitor», .read, [], false⟩,
-  ⟨L.«ConfigWatcher.done», F.«ConfigWatcher.monitor», .write, [], false⟩,
   ⟨L.«ConfigWatcher.mut», F.«ConfigWatcher.ReloadCallback», .atomic, [(L.«ConfigWatcher.mut», .sh)], false⟩,
   ⟨L.«ConfigWatcher.mut», F.«ConfigWatcher.ReloadCallback», .atomic, [], false⟩,
   ⟨L.«ConfigWatcher.mut», F.«ConfigWatcher.SubscriptionListener», .atomic, [(L.«ConfigWatcher.mut», .ex)], false⟩,
@@ -1852,7 +1858,7 @@ def accessFacts : List Fact := [
   ⟨L.«SamplerFactory.sharedDynsamplers», F.«SamplerFactory.ClearDynsamplers», .read, [(L.«SamplerFactory.mutex», .ex)], false⟩,
   ⟨L.«SamplerFactory.sharedDynsamplers», F.«SamplerFactory.ClearDynsamplers», .write, [(L.«SamplerFactory.mutex», .ex)], false⟩,
   ⟨L.«SamplerFactory.sharedDynsamplers», F.«SamplerFactory.Start», .write, [], false⟩,
-  ⟨L.«SamplerFactory.sharedDynsamplers», F.«SamplerFactory.createSampler», .read, [], false⟩,
+  ⟨L.«SamplerFactory.sharedDynsamplers», F.«SamplerFactory.createSampler», .read, [(L.«SamplerFactory.mutex», .ex)], false⟩,
   ⟨L.«SamplerFactory.sharedDynsamplers», F.«SamplerFactory.updatePeerCounts», .read, [(L.«SamplerFactory.mutex», .ex)], false⟩,
   ⟨L.«SamplerFactory.sharedDynsamplers», F.«getSharedDynsamplerAndRecorder», .read, [(L.«SamplerFactory.mutex», .ex)], false⟩,
   ⟨L.«SamplerFactory.sharedDynsamplers», F.«getSharedDynsamplerAndRecorder», .write, [(L.«SamplerFactory.mutex», .ex)], false⟩,
